@@ -471,7 +471,7 @@ def run(ctx):
     failing.sort(key=lambda f: (len(f[1]), f[1]))
     seen = set()
     for st, sp, tm, o, c in failing:
-        if len(seen) >= 6:
+        if len(seen) >= 3:
             break
         small = sp
         if not ctx.replay and len(sp) > 3 and len(seen) < 3:
